@@ -272,27 +272,21 @@ where
         bit_write: &mut W,
         mut n: u64,
     ) -> Result<(), CopyError<Self::Error, W::Error>> {
-        let from_buffer = Ord::min(n, self.bits_in_buffer as _);
-        self.buffer = self.buffer.rotate_left(from_buffer as _);
-
-        #[allow(unused_mut)]
-        let mut self_buffer_u64: u64 = self.buffer.cast();
-
-        #[cfg(feature = "checks")]
-        {
-            // Clean up in case checks are enabled
-            if n < 64 {
-                self_buffer_u64 &= (1_u64 << n) - 1;
-            }
+        // Move the buffered bits in chunks of at most 64 bits; read_bits()
+        // extracts them from the buffer without touching the backend and
+        // leaves the buffer clean
+        let mut from_buffer = Ord::min(n, self.bits_in_buffer as _);
+        n -= from_buffer;
+        while from_buffer > 0 {
+            let to_copy = Ord::min(from_buffer, 64) as usize;
+            let bits = self.read_bits(to_copy).map_err(CopyError::ReadError)?;
+            bit_write
+                .write_bits(bits, to_copy)
+                .map_err(CopyError::WriteError)?;
+            from_buffer -= to_copy as u64;
         }
 
-        bit_write
-            .write_bits(self_buffer_u64, from_buffer as usize)
-            .map_err(CopyError::WriteError)?;
-        n -= from_buffer;
-
         if n == 0 {
-            self.bits_in_buffer -= from_buffer as usize;
             return Ok(());
         }
 
@@ -320,8 +314,10 @@ where
         bit_write
             .write_bits((new_word >> self.bits_in_buffer).upcast(), n as usize)
             .map_err(CopyError::WriteError)?;
-        self.buffer = UpcastableInto::<BB<WR>>::upcast(new_word)
-            .rotate_right(WR::Word::BITS as u32 - n as u32);
+        // Keep only the unread bits, as the highest bits of the buffer
+        self.buffer = (UpcastableInto::<BB<WR>>::upcast(new_word)
+            << (BB::<WR>::BITS - self.bits_in_buffer - 1))
+            << 1;
 
         Ok(())
     }
@@ -514,28 +510,21 @@ where
         bit_write: &mut W,
         mut n: u64,
     ) -> Result<(), CopyError<Self::Error, W::Error>> {
-        let from_buffer = Ord::min(n, self.bits_in_buffer as _);
-
-        #[allow(unused_mut)]
-        let mut self_buffer_u64: u64 = self.buffer.cast();
-
-        #[cfg(feature = "checks")]
-        {
-            // Clean up in case checks are enabled
-            if n < 64 {
-                self_buffer_u64 &= (1_u64 << n) - 1;
-            }
+        // Move the buffered bits in chunks of at most 64 bits; read_bits()
+        // extracts them from the buffer without touching the backend and
+        // leaves the buffer clean
+        let mut from_buffer = Ord::min(n, self.bits_in_buffer as _);
+        n -= from_buffer;
+        while from_buffer > 0 {
+            let to_copy = Ord::min(from_buffer, 64) as usize;
+            let bits = self.read_bits(to_copy).map_err(CopyError::ReadError)?;
+            bit_write
+                .write_bits(bits, to_copy)
+                .map_err(CopyError::WriteError)?;
+            from_buffer -= to_copy as u64;
         }
 
-        bit_write
-            .write_bits(self_buffer_u64, from_buffer as usize)
-            .map_err(CopyError::WriteError)?;
-
-        self.buffer >>= from_buffer;
-        n -= from_buffer;
-
         if n == 0 {
-            self.bits_in_buffer -= from_buffer as usize;
             return Ok(());
         }
 
